@@ -606,3 +606,113 @@ func ruleC19Vars(c *Ctx, r *Rep) {
 		r.Undecided("newEnv", fd.Pos(), "no newEnv call in RunWithContext")
 	}
 }
+
+func init() {
+	reg(&Rule{ID: "R-C19-optionpure", Props: []string{"C19", "C06"}, Floor: 5,
+		Doc: "the closures returned by the With* options write only into the compiler they are given: no store through a captured variable (an option value is reusable across compilations and must grant the same thing each time)",
+		Run: ruleC19OptionPure})
+	reg(&Rule{ID: "R-C19-varstore", Props: []string{"C19"}, Floor: 1,
+		Doc: "Compile emits exactly one opstore per declared variable: the emission is unconditional in the loop over c.variables (Run pushes one value per name)",
+		Run: ruleC19VarStore})
+	reg(&Rule{ID: "R-C19-envsingle", Props: []string{"C19"}, Floor: 1,
+		Doc: "the environment object is built at exactly one site (one call of c.environLoader): env, $ENV and every index of them see the same object",
+		Run: ruleC19EnvSingle})
+}
+
+func ruleC19OptionPure(c *Ctx, r *Rep) {
+	n := 0
+	for _, f := range c.PkgFuncs(c.Gojq) {
+		if f.Parent() == nil || c.PhysFile(f.Pos()) != "option.go" {
+			continue
+		}
+		// closures whose first parameter is *compiler: the option bodies
+		if len(f.Params) != 1 || !isNamed(f.Params[0].Type(), pathGojq, "compiler") {
+			continue
+		}
+		n++
+		bad := ""
+		for _, b := range f.Blocks {
+			for _, in := range b.Instrs {
+				if st, ok := in.(*ssa.Store); ok {
+					root, _, _ := addrRoot(st.Addr)
+					if fv, ok := root.(*ssa.FreeVar); ok {
+						bad = "store through captured variable " + fv.Name() + " at " + c.Pos(instrPos(in))
+					}
+				}
+				if mu, ok := in.(*ssa.MapUpdate); ok {
+					root, _, _ := addrRoot(mu.Map)
+					if fv, ok := root.(*ssa.FreeVar); ok {
+						bad = "map update through captured variable " + fv.Name()
+					}
+				}
+			}
+		}
+		r.Check(bad == "", "option:"+fnDisplay(f), f.Pos(), "option closure %s writes only into its compiler argument%s", fnDisplay(f), map[bool]string{true: "", false: ": " + bad + " — the option value then remembers what an earlier Compile merged into it (reusing WithFunction(\"f\",1,1,…) later also grants the arities it was once merged with)"}[bad == ""])
+	}
+	if n < 5 {
+		r.Undecided("census", token.NoPos, "only %d option closures found in option.go", n)
+	}
+}
+
+func ruleC19VarStore(c *Ctx, r *Rep) {
+	info := c.Gojq.TypesInfo
+	fd := c.Decl(c.Gojq, "Compile")
+	if fd == nil {
+		r.Undecided("Compile", token.NoPos, "not found")
+		return
+	}
+	var loop *ast.RangeStmt
+	ast.Inspect(fd.Body, func(m ast.Node) bool {
+		if rs, ok := m.(*ast.RangeStmt); ok {
+			if f, ok := selectorOn(info, rs.X, "compiler"); ok && f == "variables" {
+				loop = rs
+			}
+		}
+		return true
+	})
+	if loop == nil {
+		r.Undecided("Compile:variables", fd.Pos(), "loop over c.variables not found")
+		return
+	}
+	// the opstore emission is a direct statement of the loop body, and the only other exits are error returns
+	direct := false
+	for _, e := range getEmits(c) {
+		if e.Fn == fd && e.Op == "opstore" && loop.Body.Pos() <= e.Lit.Pos() && e.Lit.End() <= loop.Body.End() {
+			for _, s := range loop.Body.List {
+				if s.Pos() <= e.Lit.Pos() && e.Lit.End() <= s.End() {
+					if _, ok := s.(*ast.ExprStmt); ok {
+						direct = true
+					}
+				}
+			}
+		}
+	}
+	skips := ""
+	ast.Inspect(loop.Body, func(m ast.Node) bool {
+		if b, ok := m.(*ast.BranchStmt); ok && (b.Tok == token.CONTINUE || b.Tok == token.BREAK) {
+			skips = b.Tok.String() + " at " + c.Pos(b.Pos())
+		}
+		return true
+	})
+	r.Check(direct && skips == "", "Compile:one-store-per-variable", loop.Pos(), "the loop over c.variables emits its opstore unconditionally (direct statement: %v, skipping branch: %q): RunWithContext checks the count and execute pushes one value per name, so a skipped store leaves a value on the stack and shifts every later binding and the input itself", direct, skips)
+}
+
+func ruleC19EnvSingle(c *Ctx, r *Rep) {
+	info := c.Gojq.TypesInfo
+	n := 0
+	var where []string
+	for _, fd := range c.Decls(c.Gojq) {
+		ast.Inspect(fd.Body, func(m ast.Node) bool {
+			call, ok := m.(*ast.CallExpr)
+			if !ok {
+				return true
+			}
+			if f, ok := selectorOn(info, call.Fun, "compiler"); ok && f == "environLoader" {
+				n++
+				where = append(where, declKey(fd))
+			}
+			return true
+		})
+	}
+	r.Check(n == 1, "environLoader:calls", token.NoPos, "c.environLoader() is called at %d site(s) %v (exactly one: a second builder of the environment object is a sibling that can disagree on duplicates and empty names)", n, where)
+}
